@@ -40,7 +40,7 @@ package pool
 //@ ensures [errkind] !typeis(err, VerifyFailedError)
 //@ ensures [unlocked] !held(p.mu)
 //@ ensures [effects] effects >= old(effects)
-//@ modifies effects, p.remoteHosts, p.remoteNodeLookup, p.Store.reg
+//@ modifies effects, p.remoteHosts, p.remoteNodeLookup, p.Store.reg, p.Store.node
 
 //@ func (*VipnodePool).requestHosts
 //@ property C04 C06 C08
